@@ -51,6 +51,7 @@ type Thread struct {
 	name    string
 	retval  Value
 	startFn Value
+	vc      []int
 	startArgs []Value
 }
 
@@ -96,6 +97,9 @@ type State struct {
 	violatedHere bool
 	witness map[string]uint64
 	shared  map[int]bool
+	syncVC  map[string][]int
+	shadow  map[int]*raceInfo
+	libArr  map[int]bool
 }
 
 func (st *State) clone() *State {
@@ -111,6 +115,24 @@ func (st *State) clone() *State {
 		vars:   append([]*Term(nil), st.vars...),
 		notes:  append([]string(nil), st.notes...),
 		witness: st.witness,
+	}
+	if len(st.syncVC) > 0 {
+		ns.syncVC = make(map[string][]int, len(st.syncVC))
+		for k, v := range st.syncVC {
+			ns.syncVC[k] = v
+		}
+	}
+	if len(st.shadow) > 0 {
+		ns.shadow = make(map[int]*raceInfo, len(st.shadow))
+		for k, v := range st.shadow {
+			ns.shadow[k] = v
+		}
+	}
+	if len(st.libArr) > 0 {
+		ns.libArr = make(map[int]bool, len(st.libArr))
+		for k, v := range st.libArr {
+			ns.libArr[k] = v
+		}
 	}
 	if len(st.shared) > 0 {
 		ns.shared = make(map[int]bool, len(st.shared))
@@ -137,6 +159,7 @@ func (st *State) clone() *State {
 	ns.threads = make([]*Thread, len(st.threads))
 	for i, t := range st.threads {
 		nt := *t
+		nt.vc = append([]int(nil), t.vc...)
 		nt.frames = make([]*Frame, len(t.frames))
 		for j, f := range t.frames {
 			nf := *f
